@@ -318,7 +318,8 @@ SUPPORT_INLINE constexpr T sar(const T& value, const N& n) noexcept { return T(a
 template<typename T, typename N>
 [[nodiscard]]
 SUPPORT_INLINE constexpr T ror(const T& value, const N& n) noexcept {
-  uint32_t opposite_n =  uint32_t(bit_size_of<T>) - uint32_t(n);
+  // Mask the opposite count so that `n == 0` does not shift by the width of the type (undefined behavior).
+  uint32_t opposite_n = (uint32_t(bit_size_of<T>) - uint32_t(n)) & (uint32_t(bit_size_of<T>) - 1u);
   return T((as_std_uint(value) >> n) | (as_std_uint(value) << opposite_n));
 }
 
